@@ -35,7 +35,10 @@ def gen_history(rnd, nact):
     acts = [("add", 0, 0.0, rnd.randrange(1 << 30)), ("add", 0, 0.5, rnd.randrange(1 << 30))]
     for _ in range(nact):
         r = rnd.random()
-        if r < 0.22:
+        if r < 0.03:
+            # many new statements in one file (a count threshold in how IDs are reserved would only show here)
+            acts.append(("add_many", rnd.randrange(0, 4), rnd.choice([129, 150, 257, 300]), rnd.randrange(1 << 30)))
+        elif r < 0.22:
             acts.append(("add", rnd.randrange(0, 4), rnd.random(), rnd.randrange(1 << 30)))
         elif r < 0.36:
             acts.append(("del_stmt", "highest" if rnd.random() < 0.6 else "random", rnd.random()))
@@ -126,6 +129,14 @@ def run_history(built, acts, structured, record=False):
                     at = min(max(2, at), len(lines) - 1)
                     for piece in reversed(stmt_line(w.next_marker, structured, bits >> (3 * j)).splitlines(keepends=True)):
                         lines.insert(at, piece)
+                    w.next_marker += 1
+                w.flush()
+            elif kind == "add_many":
+                _, fi, n, bits = a
+                rel = "src/f%d.rs" % fi
+                lines = w.files.setdefault(rel, [b"// file %d\n" % fi, b"fn f() {\n", b"}\n"])
+                for j in range(n):
+                    lines.insert(len(lines) - 1, ('    info!("S%d_ bulk %d");\n' % (w.next_marker, j)).encode())
                     w.next_marker += 1
                 w.flush()
             elif kind == "del_stmt":
